@@ -377,9 +377,10 @@ def run(ck: Check):
                     pab_check(ck, drv, c, times)
             # ---- oracle 1: single epoch = constant-rate density
             if m == 1:
-                want = float(O.const_logdensity(c["lam"][0], c["mu"][0], c["psi"][0], c["rho"][0], c["times"][-1], c["tips"], c["ints"], c["survival"]))
-                if c["r"] is None or c["r"][0] == 1.0:
-                    off = math.log(2.0) * (len(c["tips"]) - 1) if c["r"] is not None else 0.0
+                want = float(O.const_logdensity(c["lam"][0], c["mu"][0], c["psi"][0], c["rho"][0], c["times"][-1], c["tips"], c["ints"], c["survival"],
+                                                None if c["r"] is None else c["r"][0]))
+                if True:  # with or without a removal probability (the oracle follows the labelled-tree convention)
+                    off = 0.0
                     if not close(val - off, want, 1e-9):
                         fail(f"bdsk:single-epoch-vs-constant:{feats[0]}",
                              f"single epoch: log_prob = {val - off!r}, constant-rate birth–death-sampling density = {want!r} [{', '.join(feats)}]",
@@ -431,7 +432,7 @@ def run(ck: Check):
                              f"equations along the tree gives {rk!r} [{', '.join(feats)}]", dict(replay, impl=val - off, rk4=rk))
             # ---- the models built through from_json
             if idx % 5 == 0 and c["r"] is None and not c["root_edge"] and c["mode"] != "none":
-                json_models(ck, c, val, fail)
+                json_models(ck, c, val, fail, drv)
     finally:
         if drv:
             drv.close()
@@ -472,7 +473,7 @@ def pab_check(ck, drv, c, times):
             ck.mismatch(f"log_p: {name} differs from the Lean model", {"case": slim(c), "impl": a, "model": b})
 
 
-def json_models(ck, c, direct_value, fail):
+def json_models(ck, c, direct_value, fail, drv=None):
     """BDSKModel / BirthDeathModel built by from_json must give the value of the distribution built directly"""
     m = len(c["lam"])
     replay = {"case": slim(c)}
@@ -499,6 +500,12 @@ def json_models(ck, c, direct_value, fail):
             fail(f"BirthDeathModel:raises:{type(e).__name__}", f"BirthDeathModel built from JSON raises {type(e).__name__}: {str(e)[:120]}", dict(replay, spec=spec))
             return
         ck.case(None, nontrivial=False, bucket="BirthDeathModel")
+        if drv:
+            ws = ["1" if c["survival"] else "0"] + [f2h(x) for x in (c["lam"][0], c["mu"][0], c["psi"][0], c["rho"][0], c["times"][-1])]
+            ws += [str(len(c["tips"]))] + [f2h(x) for x in c["tips"]] + [str(len(c["ints"]))] + [f2h(x) for x in c["ints"]]
+            rep = drv.ask("constlogprob " + " ".join(ws))
+            if rep == "bad-op" or not close(v, h2f(rep)):
+                ck.mismatch("BirthDeathModel() differs from the Lean constant model", {"case": slim(c), "impl": v, "model": rep})
         want = float(O.const_logdensity(c["lam"][0], c["mu"][0], c["psi"][0], c["rho"][0], c["times"][-1], c["tips"], c["ints"], c["survival"]))
         if not close(v, want, 1e-9):
             feats = features(c)
